@@ -11,6 +11,8 @@ def resolved(r):
 
 def run(ctx):
     clock.install()
+    from .. import concretize
+    concretize.FORMATS = True      # references of several formats (strong with class, weak, bare oid) to one target
     q = ctx.quick
     inv = ['StoredIsMerge', 'NoLostUpdate']
     S.model_check(ctx, 'file-3x1-refs', sd.consts('file', MaxTxn=3, MaxRecs=1, RefSets='AllRefs', AtomVals=('v1',), MaxClock=1),
